@@ -9,7 +9,7 @@ from ..astutil import (
     ancestors, call_name, calls_in, calls_named, dotted, enclosing_try, lexical_guards, name_stores, test_atoms, unparse,
     walk_local, walk_stmts,
 )
-from ..report import Registry, sub
+from ..report import Registry, chain, sub
 from ._helpers_rules_d import (
     attr_store_nodes, call_nodes, callee_is, const_is, ends_with_name, guard_atom_set, is_catch_all, kw, lexically_inside,
 )  # noqa: F401
@@ -544,13 +544,36 @@ def _is_tx(e, aliases):
     return (isinstance(e, ast.Attribute) and e.attr == "_transaction") or (isinstance(e, ast.Name) and e.id in aliases)
 
 
+def transaction_kind_attrs(ctx):
+    """Attributes of a SessionTransaction that tell its kind / position in the stack: bound by __init__ from the
+    `origin` / `parent` constructor parameters, plus the properties computed from those."""
+    cls = ctx.index.cls(ST)
+    init = cls.methods.get("__init__")
+    ctx.require(init is not None, "SessionTransaction has no __init__")
+    params = [p for p in init.params if p not in ("self", "session")]
+    kind = set()
+    for st in walk_stmts(init.node.body):
+        if isinstance(st, ast.Assign) and any(isinstance(n, ast.Name) and n.id in params for n in ast.walk(st.value)):
+            for t in st.targets:
+                if isinstance(t, ast.Attribute) and dotted(t.value) == "self":
+                    kind.add(t.attr)
+    ctx.require(len(kind) >= 3, f"SessionTransaction.__init__ binds only {sorted(kind)} from origin/parent")
+    for name, f in cls.methods.items():
+        if any((d or "").endswith("property") for d in f.decorators):
+            if any(isinstance(n, ast.Attribute) and dotted(n.value) == "self" and n.attr in kind for n in ast.walk(f.node)):
+                kind.add(name)
+    return kind
+
+
 @R.rule("C32-R7", floor=5, template="T-GUARD/T-SIBLING",
         desc="every place outside SessionTransaction that maintains the current transaction's bookkeeping maps "
-             "(<session>._transaction._new/_deleted/_dirty/_key_switches) does so whenever a transaction exists: no "
-             "guard reads a property of that transaction (kind, nesting, parent, state) -- flush subtransactions share "
-             "their parent's maps, so _restore_snapshot relies on them being maintained from any level")
+             "(<session>._transaction._new/_deleted/_dirty/_key_switches) does so for any kind of current transaction: no "
+             "guard reads an attribute telling the transaction's kind / position (what __init__ binds from origin and "
+             "parent -- nested, origin, _parent -- and the properties computed from them) -- flush subtransactions "
+             "share their parent's maps, so _restore_snapshot relies on them being maintained from any level")
 def r7(ctx):
     found = 0
+    kind = transaction_kind_attrs(ctx)
     for m in ctx.index.all_modules():
         if not m.relpath.startswith("orm/") or "_transaction" not in m.source:
             continue
@@ -578,7 +601,7 @@ def r7(ctx):
                         guards.extend(g.edge_guards(nid))
                     for t, pol in guards:
                         for a in ast.walk(t):
-                            if isinstance(a, ast.Attribute) and _is_tx(a.value, al) and a.attr not in BOOKKEEPING:
+                            if isinstance(a, ast.Attribute) and _is_tx(a.value, al) and a.attr in kind:
                                 txt = f"`{unparse(a)}` (in `{unparse(t)}`)"
                                 if txt not in bad:
                                     bad.append(txt)
@@ -631,3 +654,40 @@ R.mutant("benign-rename-transaction-local", SESSION,
          sub("        flush_context.transaction = transaction = self._autobegin_t()._begin()\n", "        flush_context.transaction = transaction = self._autobegin_t()._begin()\n        _dbg = transaction\n"), None)
 R.mutant("benign-log-in-rollback", SESSION, sub("        boundary = self\n        rollback_err = None\n", "        rollback_err = None\n        boundary = self\n        _n = len(self._connections)\n"), None)
 R.mutant("benign-rename-loop-var", SESSION, sub("        for s in set(self._deleted).union(self.session._deleted):\n            self.session._update_impl(s, revert_deletion=True)\n", "        for st_ in set(self._deleted).union(self.session._deleted):\n            self.session._update_impl(st_, revert_deletion=True)\n"), None)
+
+# --- str-n: C32-R5(f) / R6 / R7
+# C32-R5 `new-objects-stay-transient` fires on the unchanged tree (findings/C32_rollback_rekeys_expunged_new_object.py); self-tests are judged
+# relative to that baseline, so its breaking mutant can only be enabled once the defect is fixed in /repo:
+# R.mutant("restore-rekeys-expunged-state", SESSION,
+#          sub("            if s not in to_expunge:\n                s.key = oldkey\n                self.session.identity_map.replace(s)\n",
+#              "            s.key = oldkey\n            if s not in to_expunge:\n                self.session.identity_map.replace(s)\n"), "C32-R5")
+R.mutant("seed-expire-keeps-pending-mutations", STATE,
+         sub("        self._strong_obj = None\n\n        if \"_pending_mutations\" in self.__dict__:\n            del self.__dict__[\"_pending_mutations\"]\n\n", "        self._strong_obj = None\n\n"), "C32-R6")
+R.mutant("expire-keeps-committed-state", STATE,
+         sub("            modified_set.discard(self)\n            self.committed_state.clear()\n            self.modified = False\n", "            modified_set.discard(self)\n            self.modified = False\n"), "C32-R6")
+R.mutant("expire-pending-only-when-clean", STATE,
+         sub("        if \"_pending_mutations\" in self.__dict__:\n            del self.__dict__[\"_pending_mutations\"]\n\n        if \"parents\"",
+             "        if \"_pending_mutations\" in self.__dict__ and not self._strong_obj:\n            del self.__dict__[\"_pending_mutations\"]\n\n        if \"parents\""), "C32-R6")
+R.mutant("expire-attributes-keeps-pending-key", STATE,
+         sub("            self.committed_state.pop(key, None)\n            if pending:\n                pending.pop(key, None)\n", "            self.committed_state.pop(key, None)\n"), "C32-R6")
+R.mutant("expire-keeps-strong-ref", STATE, sub("            self.modified = False\n\n        self._strong_obj = None\n\n        if \"_pending", "            self.modified = False\n\n        if \"_pending"), "C32-R6")
+R.mutant("seed-expunge-prunes-deleted-only-at-boundary", SESSION,
+         sub("            elif self._transaction:\n                # state is \"detached\"", "            elif (\n                self._transaction\n                and self._transaction._is_transaction_boundary\n            ):\n                # state is \"detached\""), "C32-R7")
+R.mutant("register-altered-only-root", SESSION,
+         sub("        if self._transaction:\n            for state in states:\n                if state in self._new:\n                    self._transaction._new[state] = True",
+             "        if self._transaction and self._transaction._parent is None:\n            for state in states:\n                if state in self._new:\n                    self._transaction._new[state] = True"), "C32-R7")
+R.mutant("newly-deleted-not-in-subtransaction", SESSION,
+         sub("            if self._transaction:\n                self._transaction._deleted[state] = True\n",
+             "            trans = self._transaction\n            if trans is not None and (trans.nested or trans.parent is None):\n                trans._deleted[state] = True\n"), "C32-R7")
+R.mutant("benign-expire-pop-pending", STATE,
+         sub("        if \"_pending_mutations\" in self.__dict__:\n            del self.__dict__[\"_pending_mutations\"]\n\n        if \"parents\" in self.__dict__:\n            del self.__dict__[\"parents\"]\n",
+             "        if \"parents\" in self.__dict__:\n            del self.__dict__[\"parents\"]\n\n        self.__dict__.pop(\"_pending_mutations\", None)\n"), None)
+R.mutant("benign-expire-attributes-rename-pending", STATE,
+         chain(sub("        pending = self.__dict__.get(\"_pending_mutations\", None)\n", "        queued = self.__dict__.get(\"_pending_mutations\", None)\n"),
+                             sub("            if pending:\n                pending.pop(key, None)\n", "            if queued is not None and key in queued:\n                del queued[key]\n")), None)
+R.mutant("benign-expunge-local-transaction", SESSION,
+         sub("            elif self._transaction:\n                # state is \"detached\" from being deleted, but still present\n                # in the transaction snapshot\n                self._transaction._deleted.pop(state, None)\n",
+             "            else:\n                trans = self._transaction\n                if trans is not None:\n                    trans._deleted.pop(state, None)\n"), None)
+R.mutant("benign-newly-deleted-active-transaction", SESSION,
+         sub("            if self._transaction:\n                self._transaction._deleted[state] = True\n",
+             "            if self._transaction is not None:\n                _n = len(self._transaction._deleted)\n                self._transaction._deleted[state] = True\n"), None)
